@@ -120,6 +120,21 @@ M = [
   "        let pre_header_range = range.start..first_header.unwrap_or(range.end);", "        let pre_header_end = first_header.unwrap_or(range.end);\n        let pre_header_range = range.start..pre_header_end;", {"C07": 0, "C20": 0}),
  ("update_key_skips_blank", "crates/liwe/src/graph.rs",
   "        self.from_markdown(key, content, MarkdownReader::new());\n\n        self", "        if !content.is_empty() {\n            self.from_markdown(key, content, MarkdownReader::new());\n        }\n\n        self", {"C20": 1, "C04": 1}),
+ # positions chain / first_header helpers (rules T15, T12b)
+ ("positions_level_strict", "crates/liwe/src/graph/sections_builder.rs",
+  "header.level <= first_header_level(range.clone(), content).unwrap()", "header.level < first_header_level(range.clone(), content).unwrap()", {"C07": 1}),
+ ("positions_skip_first_heading", "crates/liwe/src/graph/sections_builder.rs",
+  ".filter(|&x| x >= first_header.unwrap_or(range.start))", ".filter(|&x| x > first_header.unwrap_or(range.start))", {"C07": 1}),
+ ("positions_level_plus_one", "crates/liwe/src/graph/sections_builder.rs",
+  "header.level <= first_header_level(range.clone(), content).unwrap()", "header.level <= first_header_level(range.clone(), content).unwrap() + 1", {"C07": 1}),
+ ("benign_positions_end_exclusive", "crates/liwe/src/graph/sections_builder.rs",
+  ".filter(|&x| x <= range.end)", ".filter(|&x| x < range.end)", {"C07": 0, "C01": 0}),
+ ("first_header_level_reversed", "crates/liwe/src/graph/sections_builder.rs",
+  "    range.into_iter().find_map(|i| match content[i].clone() {", "    range.into_iter().rev().find_map(|i| match content[i].clone() {", {"C07": 2}),
+ ("first_header_skips_range_start", "crates/liwe/src/graph/sections_builder.rs",
+  "    range.into_iter().find(|i| match content[*i].clone() {", "    (range.start + 1..range.end).into_iter().find(|i| match content[*i].clone() {", {"C07": 1}),
+ ("child_inlines_image_has_no_kids", "crates/liwe/src/model/document.rs",
+  "            DocumentInline::Image(image) => image.inlines.iter().collect(),", "            DocumentInline::Image(_) => vec![],", {"C13": 1}),
  # benign refactorings: must not alarm
  ("benign_process_section_local", "crates/liwe/src/graph/sections_builder.rs",
   "        self.section_block(&blocks[range.start]);\n", "        let first = &blocks[range.start];\n        self.section_block(first);\n", {"C07": 0, "C20": 0}),
